@@ -45,6 +45,11 @@ CLAIMED = {
             "5 (C04)", "per-value invariant + set equality with the reference model at quiescence", "Trusts the simlink stub; expiry of unreferenced links after the hold-open period is modelled as a loss."),
  "C07": sim("Real opener (mountedLink.OpenMountedStream) and real receiver (HandleIncomingStream, header reader, protocol validation, handler lookup through the bus) joined by a simulator-owned byte stream with driver-chosen chunking; protocol IDs from 1 byte to the exact header limit (boundary-biased), payload written right behind the header; ten kinds of malformed or stalled headers written by the harness; valid headers must be dispatched exactly once with the written protocol ID and the link's peers and hand the handler exactly the payload, malformed ones must end in a closed stream without dispatch. A valid header that the driver itself delays beyond the 5 s establish deadline is treated as a stalled header.",
             "5 (C07)", "exact equality of protocol ID, peers and payload per stream + closed-without-dispatch for malformed input", "Trusts the simlink stub and its fake-clock read deadlines."),
+
+ "C27": sim("A real FloodSub router with subscriptions, an honest scripted downstream peer that observes everything the router forwards and a scripted malicious peer that injects tampered, re-targeted, foreign-signed (with and without an embedded public key), same-signature-different-payload, cross-context, empty-channel, unsubscribed-channel and bit-flipped packets between honest ones; every handler callback and every forwarded message is checked against the set of (sender, channel, payload) triples the harness itself signed.",
+            "5 (C27)", "per-callback and per-forward membership in the harness-made honest pool"),
+ "C28": sim("3-5 real FloodSub routers in a connected mesh drawn from the tape (line, star, ring, random); publishes from every node; link flaps under the same and under new link tuples, router crash and restart, chunked and stalled streams, clock jumps beyond the de-duplication window; no duplicate hand-over within the window, no message sent back to its publisher or to its only source (wire tap ordered by a global event sequence), and after the last fault one fresh message per node and channel is handed exactly once to every subscription reachable through subscribed routers. Router panics are violations.",
+            "5 (C28)", "per-delivery counters + wire-tap ordering + exactly-once at reachable subscribers after stabilisation"),
 }
 
 NA_PURE = {
